@@ -27,13 +27,15 @@ MANIFEST = {
             "with >=1 transaction round-trip for every coin class; the id is the double SHA-256 of the 80 header bytes; a block whose "
             "header root differs from the merkle root of its transactions raises BadMerkleRootError. Models tied to the code by "
             "differential correspondence through merkle(), Block.from_bin/as_bin/id/parse_as_header (BTC and LTC classes) and "
-            "network.message.parse('merkleblock', ..) on every run.",
+            "network.message.parse('merkleblock', ..) on every run. Block.parse(include_offsets=True) records for every transaction "
+            "the position the wire format gives it and parses the same block (C14_block_offsets; op block_offs, oracle: the bytes at each "
+            "offset are the transaction). as_hex()/previous_block_id() ride in the object histories.",
     "note": "double_sha256 is a function symbol in the theorems; the Lean SHA-256 model is validated against hashlib by correspondence. "
             "Transactions inside blocks rely on the C07 transaction model and its prefix-parser law.",
     "technique": "Lean 4 proof (induction over tree height / prefix-parser law on an executable model) + differential correspondence "
                  "model vs implementation + independent reference builder and encoders in the harness",
 }
-RULE = ("ops merkle/merkle_spec/pmt_build/pmt_verify/block_rt/header_rt/blk_seq (object histories: observers x mutators); boundary corpus (every n in 1..17 x matched subsets incl. "
+RULE = ("ops merkle/merkle_spec/pmt_build/pmt_verify/block_rt/block_offs/header_rt/blk_seq (object histories: observers x mutators); boundary corpus (every n in 1..17 x matched subsets incl. "
         "right-edge leaves, every single-position corruption of small proofs, all subsets for n<=6 (thorough: n<=11), blocks of "
         "1..33 transactions across powers of two and odd sizes for BTC and LTC, tampered blocks) + seeded random trees/blocks; "
         "distinct = distinct op line; trivial = nothing matched / correspondence-only malformed blocks")
@@ -159,6 +161,11 @@ def impl(op: str) -> str:
         if k == "block_rt":
             blk = M.limited(NET[a[1]].block.from_bin, bytes.fromhex(a[2]))
             return "ok %s %s %d" % (blk.as_bin().hex(), blk.id(), len(blk.txs))
+        if k == "block_offs":
+            data = bytes.fromhex(a[3])
+            f = io.BytesIO(data)
+            blk = M.limited(NET[a[1]].block.parse, f, include_offsets=True, check_merkle_hash=(a[2] == "1"))
+            return "ok %s %d" % (show_list(tx.offset_in_block for tx in blk.txs), len(data) - f.tell())
         if k == "blk_seq":
             return blk_seq_impl(unhx(a[1]), a[2].split(","))
         if k == "header_rt":
@@ -208,6 +215,10 @@ def blk_seq_impl(hdr: bytes, steps) -> str:
                 blk.stream_header(g)
                 return hx(g.getvalue())
             out.append(_step_answer(sh))
+        elif p[0] == "as_hex":
+            out.append(_step_answer(lambda: blk.as_hex() or "-"))
+        elif p[0] == "prev_id":
+            out.append(_step_answer(lambda: blk.previous_block_id() or "-"))
         elif p[0] == "as_blockheader":
             blk = blk.as_blockheader()
             out.append("-")
@@ -246,13 +257,16 @@ def blk_seq_oracle(op_args, out):
             fields[5] = int(p[1])
         elif p[0] == "set":
             fields[idx[p[1]]] = bytes.fromhex(p[2][1:]) if p[2].startswith("x") else int(p[2])
-        elif p[0] in ("id", "hash", "header", "as_bin"):
+        elif p[0] == "prev_id":
+            if ans != (fields[1][::-1].hex() or "-"):
+                return "step %d (%s): previous_block_id() is not the reversed hex of the current previous_block_hash" % (i, st)
+        elif p[0] in ("id", "hash", "header", "as_bin", "as_hex"):
             now = ref_header_now(fields)
             if now is None:
                 if not ans.startswith("err:"):
                     return "step %d (%s): answer although the header fields cannot be streamed" % (i, st)
                 continue
-            want = {"id": dsha(now)[::-1].hex(), "hash": dsha(now).hex(), "header": now.hex(), "as_bin": now.hex()}[p[0]]
+            want = {"id": dsha(now)[::-1].hex(), "hash": dsha(now).hex(), "header": now.hex(), "as_bin": now.hex(), "as_hex": now.hex()}[p[0]]
             if ans != want:
                 if p[0] in ("id", "hash"):
                     return ("step %d (%s): block id/hash is not the double-SHA256 of the header bytes the object streams at "
@@ -286,6 +300,21 @@ def oracle(op: str, out: str):
         elif a[3] == "tampered":
             if out != "err BadMerkleRootError":
                 return "block whose transactions do not hash to the header's merkle root was not rejected with BadMerkleRootError: " + out[:40]
+    if k == "block_offs" and out.startswith("ok "):
+        data = bytes.fromhex(a[3])
+        offs = [] if out.split(" ")[1] == "~" else [int(x) for x in out.split(" ")[1].split(",")]
+        try:
+            plain = NET[a[1]].block.parse(io.BytesIO(data), check_merkle_hash=(a[2] == "1"))
+        except Exception:  # noqa: BLE001
+            return "parse with include_offsets succeeded where the plain parse fails"
+        if len(offs) != len(plain.txs):
+            return "include_offsets changed the number of transactions"
+        for o, tx in zip(offs, plain.txs):
+            raw = tx.as_bin()
+            if data[o:o + len(raw)] != raw:
+                return "offset_in_block %d does not point at the transaction's bytes" % o
+        if offs and offs != sorted(offs):
+            return "offsets are not increasing"
     if k == "header_rt" and out.startswith("ok "):
         data = unhx(a[1])
         _, hexs, bid, left = out.split(" ")
@@ -441,6 +470,20 @@ def gen_blocks(ctx, emit):
                 else:
                     blob += rng.randbytes(3)                                   # bytes after the last transaction
                 emit("block_rt %s %s any" % (coin, bytes(blob).hex()))
+        # include_offsets: honest blocks, a bad root with and without the merkle check, truncated
+        for n in (1, 2, 3, 5, 8):
+            emit("block_offs %s 1 %s" % (coin, M.random_block(rng, n)[0].hex()))
+            bad = M.random_block(rng, n, bad_root=True)[0]
+            emit("block_offs %s 0 %s" % (coin, bad.hex()))
+            emit("block_offs %s 1 %s" % (coin, bad.hex()))
+        for _ in range(ctx.n(25, 1500)):
+            blob = bytearray(M.random_block(rng, rng.choice([1, 2, 3, 4, 6]))[0])
+            kind = rng.randrange(4)
+            if kind == 1:
+                del blob[rng.randrange(80, len(blob)):]
+            elif kind == 2:
+                blob += rng.randbytes(3)
+            emit("block_offs %s %d %s" % (coin, rng.randrange(2), bytes(blob).hex()))
         # header only / zero transactions announced / count larger than the transactions present
         hdr = M.random_block(rng, 1)[1]
         emit("block_rt %s %s any" % (coin, hdr.hex()))
@@ -461,6 +504,8 @@ def gen_histories(ctx, emit):
     # every observer before and after every mutator
     muts = ["set_nonce:7", "set_nonce:0", "set_nonce:4294967295", "set:nonce:9", "set:version:3", "set:timestamp:1",
             "set:difficulty:486604799", "set:prev:x" + "ab" * 32, "set:root:x" + "cd" * 32, "as_blockheader"]
+    for m in muts:
+        emit("blk_seq %s %s" % (hx(hdr()), ",".join(["as_hex", "prev_id", m, "as_hex", "prev_id", "id"])))
     for obs in ("id", "hash"):
         for m in muts:
             emit("blk_seq %s %s" % (hx(hdr()), ",".join([obs, m, obs, "header", "as_bin"])))
@@ -474,7 +519,7 @@ def gen_histories(ctx, emit):
         for _s in range(rng.randint(2, 10)):
             r = rng.random()
             if r < 0.4:
-                steps.append(rng.choice(["id", "hash", "id", "hash", "header", "as_bin"]))
+                steps.append(rng.choice(["id", "hash", "id", "hash", "header", "as_bin", "as_hex", "prev_id"]))
             elif r < 0.7:
                 steps.append("set_nonce:%d" % rng.choice([0, 1, 2 ** 32 - 1, rng.randrange(2 ** 32), 2 ** 32, -1]))
             elif r < 0.95:
